@@ -48,6 +48,17 @@ void harness(void) {
 #ifdef MODE_C15
   glue_prog(H, IN_PROG(H), 1, al->assembly_opt);
 #endif
+  /* the history starts from an arbitrary reachable state: any offset in [0,n]
+   * and fitting off or on (both are settable by one API call each, so this
+   * costs no history steps) */
+  {
+    unsigned long k0 = IN(7), f0 = IN(IN_STEP(H) + 2);
+    ASSUME(k0 <= n && f0 < 2);
+    asm_set_offset(al, (int)k0);
+#ifdef CFIX
+    if (f0) { asm_set_chunk_size(al, CFIX); fit_c = CFIX; }
+#endif
+  }
   VF_REGION();
   for (int i = 0; i < H; i++) {
     unsigned long op = IN(IN_STEP(i)), a = IN(IN_STEP(i) + 1);
